@@ -313,7 +313,19 @@ fn gen_call(rng: &mut Rng) -> BCall {
         } else {
             Some(*rng.pick(&[0u32, 1, 10, 50, 100, 500, 1000, 8000, 65535]))
         }),
-        18 | 19 => BCall::Iname(if rng.chance(1, 4) { None } else { Some(rand_name(rng, 15)) }),
+        18 | 19 => BCall::Iname(if rng.chance(1, 4) {
+            None
+        } else if rng.chance(1, 5) {
+            // longer than the 16-byte wire field and / or non-ASCII: the Isi value must still carry
+            // the configured name unchanged (what reaches the wire is the encoder's business)
+            let mut s = String::new();
+            for _ in 0..rng.usize(10, 24) {
+                s.push(*rng.pick(&['a', 'B', '1', '-', 'Ö', 'ä', 'ß', 'é', 'я', '€']));
+            }
+            Some(s)
+        } else {
+            Some(rand_name(rng, 15))
+        }),
         20 | 21 => BCall::Admin(if rng.chance(1, 4) {
             None
         } else if rng.chance(1, 4) {
@@ -446,9 +458,16 @@ impl Prop for C18 {
         } else if rng.chance(1, 3) {
             let wc = if rng.chance(1, 4) { WriteCfg::healthy() } else { WriteCfg::swarm(rng) };
             let k = rng.usize(0, 60);
+            let mut writes = gen::gen_writes(rng, k, &wc);
+            if rng.chance(1, 5) {
+                // a transient transport error somewhere inside the handshake write
+                let at = rng.usize(0, writes.len().min(6));
+                let kind = *rng.pick(&[crate::scenario::ErrKind::WouldBlock, crate::scenario::ErrKind::TimedOut, crate::scenario::ErrKind::Interrupted]);
+                writes.insert(at, WriteEv::Err(kind));
+            }
             IoPart::SimHandshake {
                 imp: if rng.chance(1, 2) { Imp::Blocking } else { Imp::Tokio },
-                writes: gen::gen_writes(rng, k, &wc),
+                writes,
             }
         } else {
             if rng.chance(1, 20) {
@@ -544,8 +563,25 @@ impl Prop for C18 {
                 }
                 match res {
                     Err(p) => rep.violations.push(v("handshake.panic", format!("[{:?}] {}", imp, p))),
-                    Ok(Err(e)) => rep.violations.push(v("handshake.error", format!("[{:?}] handshake failed on a healthy (if slow) transport: {}", imp, e))),
+                    Ok(Err(e)) => {
+                        let injected = writes.iter().any(|w| matches!(w, WriteEv::Err(_)));
+                        if !injected {
+                            rep.violations.push(v("handshake.error", format!("[{:?}] handshake failed on a healthy (if slow) transport: {}", imp, e)));
+                        } else {
+                            rep.fault("handshake_write_error");
+                            // a failed handshake may have put a prefix of the ISI on the wire, nothing else
+                            if !exp.starts_with(&out) {
+                                rep.violations.push(v(
+                                    "handshake.wire_mismatch",
+                                    format!("[{:?}/{:?}] handshake failed ({}) but the peer received {} which is not a prefix of the configured ISI {}", imp, m.mode, e, hex::enc(&out), hex::enc(&exp)),
+                                ));
+                            }
+                        }
+                    },
                     Ok(Ok(())) => {
+                        if writes.iter().any(|w| matches!(w, WriteEv::Err(_))) {
+                            rep.fault("handshake_write_error");
+                        }
                         if out != exp {
                             rep.violations.push(v(
                                 "handshake.wire_mismatch",
@@ -655,6 +691,7 @@ impl Prop for C18 {
             "flag_setters_and_wholesale_mixed",
             "sim_handshake",
             "short_write",
+            "handshake_write_error",
             "connect_tcp_blocking",
             "connect_tcp_tokio",
             "connect_udp_blocking",
